@@ -107,6 +107,7 @@ static inline void op_meta(Ctx &c) {
   if (!(ml >= c.m.L && ml <= c.m.L + 1))
     obs::violation("C15,C06", "meta", "wrong-answer", "any", "maxLength=" + std::to_string(ml) + " longest=" + std::to_string(c.m.L));
   c.tr("meta", "n=" + std::to_string(ne) + " ml=" + std::to_string(ml), "n=" + std::to_string(ne) + " ml=" + std::to_string(ml));
+  c.sample(std::string(KIND_NAMES[c.kind]) + "/" + c.state + " numElements=" + std::to_string(ne) + " (n=" + std::to_string(c.m.n) + ") maxLength=" + std::to_string(ml) + " (longest=" + std::to_string(c.m.L) + ")");
 }
 
 // ---- member round trip (C01, C03) ------------------------------------------------------
@@ -962,6 +963,7 @@ static inline void op_unsupported(Ctx &c) {
     }
     probe_after_unsupported(c, "rank");
   }
+  c.sample(std::string(KIND_NAMES[c.kind]) + "/" + c.state + " unsupported ops probed: prefix=" + (noPrefix ? "y" : "n") + " substr=" + (noSubstr ? "y" : "n") + " rank=" + (noRank ? "y" : "n") + " table=" + (noTable ? "y" : "n") + " with patterns like " + obs::esc(pats[0], 30));
   if (noTable) {
     obs::crumb("C16", "unsupported", "extractTable");
     IteratorDictString *it = c.d->extractTable();
